@@ -44,6 +44,17 @@ JsonObjectViolations(e) ==
           ELSE {"C19.meaning." \o k : k \in {x \in Fields : ~IndFieldEq(x, e.value[x], e.ind.parsed[x])}}
                \cup (IF e.ind.parsed.extra_keys = 0 THEN {} ELSE {"C19.meaning.extra_keys"}))
 
+\* a struct with unusual property names (camelCase, upper case, digits, names that are prefixes of one another or equal to
+\* JSON literals, a blank inside): every field by name, values as text
+OddNames == {"userName", "ID", "x", "xx", "X", "a_b2", "true", "null", "Is Set"}
+OddInts  == {"ID", "a_b2", "null"}
+JsonOddViolations(e) ==
+    (IF e.obs.outcome # "ok" THEN {"C19.own_text_not_parsed_back"}
+     ELSE {"C19.round_trip.name." \o n : n \in {x \in OddNames : e.obs.parsed[x] # e.value[x]}})
+    \cup (IF e.ind.outcome # "ok" THEN {"C19.not_valid_json"}
+          ELSE {"C19.meaning.name." \o n : n \in {x \in OddNames : IF x \in OddInts THEN ~IntEq(e.value[x], e.ind.parsed[x]) ELSE e.ind.parsed[x] # e.value[x]}}
+               \cup (IF e.ind.keys = Cardinality(OddNames) THEN {} ELSE {"C19.meaning.extra_keys"}))
+
 JsonArrayViolations(e) ==
     (IF e.obs.outcome # "ok" THEN {"C19.array_not_parsed_back"}
      ELSE IF SeqEqBy(FloatEq, e.value.items, e.obs.items) THEN {} ELSE {"C19.array_round_trip"})
